@@ -58,7 +58,10 @@ class Check(PropertyCheck):
         return ImplGraph(scenario.meta.get("filter_style", "callable"))
 
     def generate(self, rng, n, tier):
-        for _ in range(n):
+        for _i in range(n):
+            if _i % 15 == 8:
+                yield Scenario(["new", f"mark customfilter {rng.randint(0, 10**6)}"], {"family": "custom_filter", "accepted": 3, "observers": 3})
+                continue
             yield self.scenario(rng, tier)
 
     def scenario(self, rng: random.Random, tier) -> Scenario:
@@ -143,6 +146,8 @@ class Check(PropertyCheck):
 
     def oracle(self, impl, scenario, index, line, out, ctx):
         res = []
+        if line.startswith("mark customfilter"):
+            return oracles.custom_filter_episode(int(line.split()[2]))["C11"]
         if line == "mark probe":
             import jsl
             from impl_ext import FKINDS
